@@ -242,6 +242,7 @@ package state
 //@   requires trkOK(st) && held(st.mu) == 0
 //@   modifies mapsof("map[string]*nick"), mapsof("map[string]*channel"), mapsof("map[*nick]*ChanPrivs"), mapsof("map[*channel]*ChanPrivs"), nick.nick, nick.ident, nick.host, nick.name, channel.topic, $log, $held, $tr
 //@   ensures $held === old($held)
+//@   ensures $trlen == old($trlen) + 2 && $tr[old($trlen)] == ev("lock", st.mu) && $tr[old($trlen)+1] == ev("unlock", st.mu)
 //@   loop 0:
 //@     invariant held(st.mu) == 1 && $held === upd(old($held), st.mu, 1)
 //@ end
@@ -251,6 +252,7 @@ package state
 //@   requires trkOK(st) && held(st.mu) == 0
 //@   modifies mapsof("map[string]*nick"), mapsof("map[string]*channel"), mapsof("map[*nick]*ChanPrivs"), mapsof("map[*channel]*ChanPrivs"), nick.nick, nick.ident, nick.host, nick.name, channel.topic, $log, $held, $tr
 //@   ensures $held === old($held)
+//@   ensures $trlen == old($trlen) || ($trlen == old($trlen) + 2 && $tr[old($trlen)] == ev("lock", st.mu) && $tr[old($trlen)+1] == ev("unlock", st.mu))
 //@   ensures result == nil || freshNick(result)
 //@ end
 //@ func (*stateTracker).GetNick
@@ -259,6 +261,7 @@ package state
 //@   requires trkOK(st) && held(st.mu) == 0
 //@   modifies mapsof("map[string]*nick"), mapsof("map[string]*channel"), mapsof("map[*nick]*ChanPrivs"), mapsof("map[*channel]*ChanPrivs"), nick.nick, nick.ident, nick.host, nick.name, channel.topic, $log, $held, $tr
 //@   ensures $held === old($held)
+//@   ensures $trlen == old($trlen) || ($trlen == old($trlen) + 2 && $tr[old($trlen)] == ev("lock", st.mu) && $tr[old($trlen)+1] == ev("unlock", st.mu))
 //@   ensures result == nil || freshNick(result)
 //@ end
 //@ func (*stateTracker).ReNick
@@ -267,6 +270,7 @@ package state
 //@   requires trkOK(st) && held(st.mu) == 0
 //@   modifies mapsof("map[string]*nick"), mapsof("map[string]*channel"), mapsof("map[*nick]*ChanPrivs"), mapsof("map[*channel]*ChanPrivs"), nick.nick, nick.ident, nick.host, nick.name, channel.topic, $log, $held, $tr
 //@   ensures $held === old($held)
+//@   ensures $trlen == old($trlen) || ($trlen == old($trlen) + 2 && $tr[old($trlen)] == ev("lock", st.mu) && $tr[old($trlen)+1] == ev("unlock", st.mu))
 //@   ensures result == nil || freshNick(result)
 //@   loop 0:
 //@     invariant held(st.mu) == 1 && $held === upd(old($held), st.mu, 1)
@@ -277,6 +281,7 @@ package state
 //@   requires trkOK(st) && held(st.mu) == 0
 //@   modifies mapsof("map[string]*nick"), mapsof("map[string]*channel"), mapsof("map[*nick]*ChanPrivs"), mapsof("map[*channel]*ChanPrivs"), nick.nick, nick.ident, nick.host, nick.name, channel.topic, $log, $held, $tr
 //@   ensures $held === old($held)
+//@   ensures $trlen == old($trlen) || ($trlen == old($trlen) + 2 && $tr[old($trlen)] == ev("lock", st.mu) && $tr[old($trlen)+1] == ev("unlock", st.mu))
 //@   ensures result == nil || freshNick(result)
 //@ end
 //@ func (*stateTracker).NickInfo
@@ -285,6 +290,7 @@ package state
 //@   requires trkOK(st) && held(st.mu) == 0
 //@   modifies mapsof("map[string]*nick"), mapsof("map[string]*channel"), mapsof("map[*nick]*ChanPrivs"), mapsof("map[*channel]*ChanPrivs"), nick.nick, nick.ident, nick.host, nick.name, channel.topic, $log, $held, $tr
 //@   ensures $held === old($held)
+//@   ensures $trlen == old($trlen) || ($trlen == old($trlen) + 2 && $tr[old($trlen)] == ev("lock", st.mu) && $tr[old($trlen)+1] == ev("unlock", st.mu))
 //@   ensures result == nil || freshNick(result)
 //@ end
 //@ func (*stateTracker).NickModes
@@ -293,6 +299,7 @@ package state
 //@   requires trkOK(st) && held(st.mu) == 0
 //@   modifies mapsof("map[string]*nick"), mapsof("map[string]*channel"), mapsof("map[*nick]*ChanPrivs"), mapsof("map[*channel]*ChanPrivs"), nick.nick, nick.ident, nick.host, nick.name, channel.topic, $log, $held, $tr
 //@   ensures $held === old($held)
+//@   ensures $trlen == old($trlen) || ($trlen == old($trlen) + 2 && $tr[old($trlen)] == ev("lock", st.mu) && $tr[old($trlen)+1] == ev("unlock", st.mu))
 //@   ensures result == nil || freshNick(result)
 //@ end
 //@ func (*stateTracker).NewChannel
@@ -301,6 +308,7 @@ package state
 //@   requires trkOK(st) && held(st.mu) == 0
 //@   modifies mapsof("map[string]*nick"), mapsof("map[string]*channel"), mapsof("map[*nick]*ChanPrivs"), mapsof("map[*channel]*ChanPrivs"), nick.nick, nick.ident, nick.host, nick.name, channel.topic, $log, $held, $tr
 //@   ensures $held === old($held)
+//@   ensures $trlen == old($trlen) || ($trlen == old($trlen) + 2 && $tr[old($trlen)] == ev("lock", st.mu) && $tr[old($trlen)+1] == ev("unlock", st.mu))
 //@   ensures result == nil || freshChannel(result)
 //@ end
 //@ func (*stateTracker).GetChannel
@@ -309,6 +317,7 @@ package state
 //@   requires trkOK(st) && held(st.mu) == 0
 //@   modifies mapsof("map[string]*nick"), mapsof("map[string]*channel"), mapsof("map[*nick]*ChanPrivs"), mapsof("map[*channel]*ChanPrivs"), nick.nick, nick.ident, nick.host, nick.name, channel.topic, $log, $held, $tr
 //@   ensures $held === old($held)
+//@   ensures $trlen == old($trlen) || ($trlen == old($trlen) + 2 && $tr[old($trlen)] == ev("lock", st.mu) && $tr[old($trlen)+1] == ev("unlock", st.mu))
 //@   ensures result == nil || freshChannel(result)
 //@ end
 //@ func (*stateTracker).DelChannel
@@ -317,6 +326,7 @@ package state
 //@   requires trkOK(st) && held(st.mu) == 0
 //@   modifies mapsof("map[string]*nick"), mapsof("map[string]*channel"), mapsof("map[*nick]*ChanPrivs"), mapsof("map[*channel]*ChanPrivs"), nick.nick, nick.ident, nick.host, nick.name, channel.topic, $log, $held, $tr
 //@   ensures $held === old($held)
+//@   ensures $trlen == old($trlen) || ($trlen == old($trlen) + 2 && $tr[old($trlen)] == ev("lock", st.mu) && $tr[old($trlen)+1] == ev("unlock", st.mu))
 //@   ensures result == nil || freshChannel(result)
 //@ end
 //@ func (*stateTracker).Topic
@@ -325,6 +335,7 @@ package state
 //@   requires trkOK(st) && held(st.mu) == 0
 //@   modifies mapsof("map[string]*nick"), mapsof("map[string]*channel"), mapsof("map[*nick]*ChanPrivs"), mapsof("map[*channel]*ChanPrivs"), nick.nick, nick.ident, nick.host, nick.name, channel.topic, $log, $held, $tr
 //@   ensures $held === old($held)
+//@   ensures $trlen == old($trlen) || ($trlen == old($trlen) + 2 && $tr[old($trlen)] == ev("lock", st.mu) && $tr[old($trlen)+1] == ev("unlock", st.mu))
 //@   ensures result == nil || freshChannel(result)
 //@ end
 //@ func (*stateTracker).ChannelModes
@@ -333,6 +344,7 @@ package state
 //@   requires trkOK(st) && held(st.mu) == 0
 //@   modifies mapsof("map[string]*nick"), mapsof("map[string]*channel"), mapsof("map[*nick]*ChanPrivs"), mapsof("map[*channel]*ChanPrivs"), nick.nick, nick.ident, nick.host, nick.name, channel.topic, $log, $held, $tr
 //@   ensures $held === old($held)
+//@   ensures $trlen == old($trlen) || ($trlen == old($trlen) + 2 && $tr[old($trlen)] == ev("lock", st.mu) && $tr[old($trlen)+1] == ev("unlock", st.mu))
 //@   ensures result == nil || freshChannel(result)
 //@ end
 //@ func (*stateTracker).Me
@@ -341,6 +353,7 @@ package state
 //@   requires trkOK(st) && held(st.mu) == 0
 //@   modifies mapsof("map[string]*nick"), mapsof("map[string]*channel"), mapsof("map[*nick]*ChanPrivs"), mapsof("map[*channel]*ChanPrivs"), nick.nick, nick.ident, nick.host, nick.name, channel.topic, $log, $held, $tr
 //@   ensures $held === old($held)
+//@   ensures $trlen == old($trlen) || ($trlen == old($trlen) + 2 && $tr[old($trlen)] == ev("lock", st.mu) && $tr[old($trlen)+1] == ev("unlock", st.mu))
 //@   ensures result == nil || freshNick(result)
 //@ end
 //@ func (*stateTracker).IsOn
@@ -349,6 +362,7 @@ package state
 //@   requires trkOK(st) && held(st.mu) == 0
 //@   modifies mapsof("map[string]*nick"), mapsof("map[string]*channel"), mapsof("map[*nick]*ChanPrivs"), mapsof("map[*channel]*ChanPrivs"), nick.nick, nick.ident, nick.host, nick.name, channel.topic, $log, $held, $tr
 //@   ensures $held === old($held)
+//@   ensures $trlen == old($trlen) + 2 && $tr[old($trlen)] == ev("lock", st.mu) && $tr[old($trlen)+1] == ev("unlock", st.mu)
 //@   ensures result0 == nil || fresh(result0)
 //@ end
 //@ func (*stateTracker).Associate
@@ -357,7 +371,9 @@ package state
 //@   requires trkOK(st) && held(st.mu) == 0
 //@   modifies mapsof("map[string]*nick"), mapsof("map[string]*channel"), mapsof("map[*nick]*ChanPrivs"), mapsof("map[*channel]*ChanPrivs"), nick.nick, nick.ident, nick.host, nick.name, channel.topic, $log, $held, $tr
 //@   ensures $held === old($held)
+//@   ensures $trlen == old($trlen) + 2 && $tr[old($trlen)] == ev("lock", st.mu) && $tr[old($trlen)+1] == ev("unlock", st.mu)
 //@   ensures result == nil || fresh(result)
+//@   ensures result != nil ==> nk.chans[ch] != result && (!old(has(ch.nicks, nk)) ==> ch.nicks[nk] != result)
 //@ end
 //@ func (*stateTracker).Dissociate
 //@   property C14
@@ -365,4 +381,5 @@ package state
 //@   requires trkOK(st) && held(st.mu) == 0
 //@   modifies mapsof("map[string]*nick"), mapsof("map[string]*channel"), mapsof("map[*nick]*ChanPrivs"), mapsof("map[*channel]*ChanPrivs"), nick.nick, nick.ident, nick.host, nick.name, channel.topic, $log, $held, $tr
 //@   ensures $held === old($held)
+//@   ensures $trlen == old($trlen) + 2 && $tr[old($trlen)] == ev("lock", st.mu) && $tr[old($trlen)+1] == ev("unlock", st.mu)
 //@ end
